@@ -409,7 +409,85 @@ func (c *c14Case) runStyleValues(ctx *core.Ctx) {
 	}
 }
 
+// c14Exprs: bound expressions that are not a plain variable, with their conventional value
+// ("" = falsy: the attribute is omitted). Several begin and end with a string literal.
+var c14Exprs = []struct{ Src, Want string }{
+	{`'lit'`, "lit"}, {`"lit"`, "lit"}, {`'btn-' + sx`, "btn-SX"}, {`sx + '-lg'`, "SX-lg"}, {`'btn-' + sx + '-lg'`, "btn-SX-lg"}, {`"a-" + sx + "-z"`, "a-SX-z"},
+	{`t ? 'yes' : 'no'`, "yes"}, {`f ? 'yes' : 'no'`, "no"}, {`'SX' == sx ? 'yes' : 'no'`, "yes"}, {`'p' == sx ? 'yes' : 'no'`, "no"},
+	{`'a' == 'b'`, ""}, {`'a' == 'a'`, "true"}, {`'a' != 'b'`, "true"}, {`cnt + 1`, "4"}, {`cnt - 3`, ""}, {`''`, ""}, {`'' + ''`, ""}, {`'x' + 'y'`, "xy"},
+	{`sx == 'SX'`, "true"}, {`sx == 'nope'`, ""}, {`t && 'a' == 'a'`, "true"}, {`'it''s'`, "?"},
+}
+
+// runExpr: a bound attribute whose expression is compound is emitted with the value's string form
+func (c *c14Case) runExpr(ctx *core.Ctx) {
+	var e struct{ Src, Want string }
+	for _, x := range c14Exprs {
+		if x.Src == c.Form {
+			e = x
+		}
+	}
+	if e.Want == "?" {
+		ctx.Zone("malformed-expression")
+		_, _ = renderString(`<p id="e" :title="`+e.Src+`">x</p>`, c14Data())
+		return
+	}
+	ctx.NonTrivial()
+	q := `"`
+	if strings.Contains(e.Src, `"`) {
+		q = `'`
+	}
+	static := ""
+	if c.ClassS {
+		static = ` class="s1 s2"`
+	}
+	attr := c.Ctx // title | class | data-k | v-bind:title
+	name := strings.TrimPrefix(attr, "v-bind:")
+	bind := ":" + attr
+	if strings.HasPrefix(attr, "v-bind:") {
+		bind = attr
+	}
+	tpl := `<p id="e"` + static + ` ` + bind + `=` + q + e.Src + q + `>x</p>`
+	ctx.Eval(1)
+	out, err := renderString(tpl, c14Data())
+	if err != nil {
+		ctx.Violation("render-error", "bound-expression/"+name, c14ExprClass(e.Src), fmt.Sprintf("tpl %s: %v", tpl, err))
+		return
+	}
+	el := htmlcmp.ByID(htmlcmp.Parse(out), "e")
+	if el == nil {
+		ctx.Violation("element-lost", "bound-expression", name, fmt.Sprintf("tpl %s out %q", tpl, out))
+		return
+	}
+	got, has := htmlcmp.Attr(el, name)
+	want, wantHas := e.Want, e.Want != ""
+	if name == "class" && c.ClassS {
+		wantHas = true
+		want = strings.TrimSpace("s1 s2 " + e.Want)
+		got = strings.Join(strings.Fields(got), " ")
+	}
+	ctx.Outcome(fmt.Sprint(has, got))
+	if has != wantHas || (has && got != want) {
+		ctx.Violation("bound-expression-value", name, c14ExprClass(e.Src), fmt.Sprintf("tpl %s: attribute %s present=%v value %q; want present=%v value %q (out %q)", tpl, name, has, got, wantHas, want, out))
+	}
+}
+
+func c14ExprClass(src string) string {
+	switch {
+	case strings.Contains(src, "?"):
+		return "ternary"
+	case strings.Contains(src, "=="), strings.Contains(src, "!="):
+		return "comparison"
+	case strings.Contains(src, "+"), strings.Contains(src, "-"):
+		return "concatenation-or-arithmetic"
+	}
+	return "literal"
+}
+
 func (c *c14Case) Run(ctx *core.Ctx) {
+	if c.Part == "expr" {
+		c.runExpr(ctx)
+		return
+	}
 	if c.Part == "style-values" {
 		c.runStyleValues(ctx)
 		return
@@ -542,6 +620,7 @@ func init() {
 		Level: "exploration",
 		Rule: "one element carrying every combination of: static / interpolated title x title bound to 17 values of every truthiness and with string forms that have several spellings (exponent notation, extreme integers) (and v-bind:) x static class x 7 bound class forms (string, number, objects with bare/single-quoted/double-quoted/hyphenated/colon-bearing keys and truthy/falsy/nil/undefined values) x static style x 3 bound style forms (camelCase object, custom property object, string) x v-show {none,true,truthy string,false,0} x directive attributes x 4 bracketed attributes (incl. a mustache value) x both source orders; " +
 			"plus static style values containing semicolons, colons and quotes (data URLs, quoted strings) x bound style x v-show; plus a reuse part: 13 element forms (v-show with/without static and bound style, bound/interpolated title, :class object/string, :style over static style, v-if / v-else + v-show, v-html / v-text + v-show, boolean attribute) evaluated for every sequence of <=3 values out of 3 in 7 contexts where one source node is evaluated repeatedly (v-for on a parent, <template v-for>, scoped slot inside a component loop, slot used twice per include, component in a loop, component included repeatedly, successive renders on one engine through Load/Render and Vue.Render), oracle: every instance equals the element rendered alone on a fresh engine; " +
+			"plus an expression part: 22 compound bound expressions (string literals in both quote styles, concatenations that begin and end with a literal, ternaries, comparisons of literals, arithmetic) on :title, :class (with and without static classes), :data-k and v-bind:title, emitted with the value's string form or omitted when falsy; " +
 			"oracle: reference attribute model (values, class token list, style property map, static order, no directive/internal attribute in the output, bracketed literal). non-trivial = all with defined semantics",
 		Bounds:      map[string]string{"quick": "full product (528k elements)", "thorough": "same"},
 		Assumptions: []string{"a falsy binding next to a static attribute of the same name is unconstrained", "relative order of style declarations and of bound attributes without a static counterpart is C10's subject"},
@@ -551,6 +630,14 @@ func init() {
 				for _, sb := range []string{"none", "obj1", "str"} {
 					for _, sh := range []string{"none", "t", "f"} {
 						emit(&c14Case{Part: "style-values", Form: st, StyleB: sb, Show: sh})
+					}
+				}
+			}
+			for _, e := range c14Exprs {
+				for _, attr := range []string{"title", "class", "data-k", "v-bind:title"} {
+					emit(&c14Case{Part: "expr", Form: e.Src, Ctx: attr})
+					if attr == "class" {
+						emit(&c14Case{Part: "expr", Form: e.Src, Ctx: attr, ClassS: true})
 					}
 				}
 			}
